@@ -402,11 +402,46 @@ def ofxget_runs_case(case):
     return out
 
 
+def ofxget_dryrun_case(case):
+    """ofxget ... --dryrun, every sub-command and flag combination: no traffic whatsoever (how the run ends is not the point)."""
+    from pbt.core import ofxgetrun as G
+
+    root = Path(tempfile.mkdtemp(prefix="verif_c14d_"))
+    url = "https://ofx.dry-bank.com/ofx"
+    out = []
+    try:
+        def responder(rec):
+            if b"<PROFRQ>" in (rec["data"] or b""):
+                return 200, [], F.profile_response({"BANKMSGSET": url, "CREDITCARDMSGSET": url, "INVSTMTMSGSET": url}, F.dt_tag(2020))
+            if b"<ACCTINFORQ>" in (rec["data"] or b""):
+                return 200, [], F.acctinfo_response([{"kind": "cc", "acctid": "4111", "status": "ACTIVE", "group": 0}])
+            return 200, [], b"<OFX>fixture reply</OFX>"
+
+        with F.FakeNet(responder) as net:
+            argv = [case["cmd"], "drybank", "--url", url, "--version", "203", "--dryrun"] + list(case["extra"])
+            G.run(root, argv, handler=True)
+            if net.log or net.socket_attempts:
+                body = (net.log[0].get("data") or b"") if net.log else b""
+                out.append(("ofxget-dry-run-sent-a-request" + ("/with-credentials" if b"pw-c14-dry" in body or b"joe-dry" in body else ""), f"{argv}: {[(r['method'], r['url']) for r in net.log][:3]} sockets={net.socket_attempts[:2]}"))
+    finally:
+        shutil.rmtree(root, ignore_errors=True)
+    return out
+
+
+_SIGN = ["--user", "joe-dry", "--password", "pw-c14-dry"]
+OFXGET_DRY_CASES = [{"kind": "ofxget-dryrun", "cmd": cmd, "extra": extra} for cmd, extra in [
+    ("prof", []), ("prof", ["--write"]), ("acctinfo", _SIGN), ("acctinfo", _SIGN + ["--write"]),
+    ("stmt", _SIGN + ["-c", "4111"]), ("stmt", _SIGN + ["-C", "1", "--bankid", "123"]), ("stmt", _SIGN + ["--all"]), ("stmt", _SIGN + ["--all", "--skipprofile"]),
+    ("stmt", _SIGN + ["--all", "-c", "4111", "--write"]), ("stmtend", _SIGN + ["--all"]), ("stmtend", _SIGN + ["-c", "4111"]), ("stmtend", _SIGN + ["--all", "--skipprofile"]),
+    ("tax1099", _SIGN + ["--year", "2019"]), ("stmt", _SIGN + ["-i", "777", "--brokerid", "b.example", "--all"]),
+]]
+
+
 def _ofxget_worker(cases):
     H.setup_path()
     s = H.Stats()
     for case in cases:
-        s.case(case, nontrivial=True, labels=["separate ofxget runs against a cookie-setting server"])
+        s.case(case, nontrivial=True, labels=["separate ofxget runs against a cookie-setting server" if case["kind"] == "ofxget-runs" else "ofxget --dryrun: " + case["cmd"]])
         for k, d in check_case(case):
             s.fail(k, case, d)
     return s
@@ -426,6 +461,8 @@ def check_case(case):
     H.setup_path()
     if isinstance(case, dict) and case.get("kind") == "ofxget-runs":
         return ofxget_runs_case(case)
+    if isinstance(case, dict) and case.get("kind") == "ofxget-dryrun":
+        return ofxget_dryrun_case(case)
     saved = STATS
     STATS = H.Stats()
     try:
@@ -471,4 +508,4 @@ def run(ctx):
     n = ctx.scale(20, 250)
     steps = ctx.scale(8, 14)
     ctx.pmap(_worker, [(n, steps, ctx.sub_seed(i)) for i in range(16)])
-    ctx.pmap(_ofxget_worker, [OFXGET_CASES[i::8] for i in range(8)])
+    ctx.pmap(_ofxget_worker, [(OFXGET_CASES + OFXGET_DRY_CASES)[i::12] for i in range(12)])
